@@ -596,6 +596,12 @@ func sameValue(a, b ssa.Value) bool {
 	if ga != nil && ga == gb {
 		return true
 	}
+	// go/ssa does no CSE: i+1 computed twice are two values
+	if xa, ok := a.(*ssa.BinOp); ok {
+		if xb, ok := b.(*ssa.BinOp); ok && xa.Op == xb.Op {
+			return sameValue(xa.X, xb.X) && sameValue(xa.Y, xb.Y)
+		}
+	}
 	return false
 }
 
@@ -653,3 +659,5 @@ func signatureOf(c *ssa.CallCommon) *types.Signature {
 	s, _ := c.Value.Type().Underlying().(*types.Signature)
 	return s
 }
+
+type typesStruct = types.Struct
